@@ -500,6 +500,12 @@ impl DialectHandler for MySqlDialect {
         '`'
     }
 
+    // https://dev.mysql.com/doc/refman/8.0/en/select.html: OFFSET is only
+    // accepted after LIMIT; a large number stands for "no limit"
+    fn limit_for_bare_offset(&self) -> Option<i64> {
+        Some(i64::MAX)
+    }
+
     fn set_ops_distinct(&self) -> bool {
         // https://dev.mysql.com/doc/refman/8.0/en/set-operations.html
         true
@@ -595,6 +601,12 @@ impl DialectHandler for BigQueryDialect {
     fn column_exclude(&self) -> Option<ColumnExclude> {
         // https://cloud.google.com/bigquery/docs/reference/standard-sql/query-syntax#select_except
         Some(ColumnExclude::Except)
+    }
+
+    // https://cloud.google.com/bigquery/docs/reference/standard-sql/query-syntax#limit_and_offset_clause
+    // OFFSET is only accepted after LIMIT
+    fn limit_for_bare_offset(&self) -> Option<i64> {
+        Some(i64::MAX)
     }
 
     fn set_ops_distinct(&self) -> bool {
